@@ -8,6 +8,7 @@ import (
 	"unsafe"
 
 	"google.golang.org/protobuf/encoding/protowire"
+	"google.golang.org/protobuf/reflect/protoreflect"
 	"google.golang.org/protobuf/runtime/protoiface"
 )
 
@@ -357,5 +358,27 @@ func contract_lazyFields(opts marshalOptions) (r bool) {
 // @ props C05
 func contract_fullyLazyExtensions(opts marshalOptions) (r bool) {
 	ensures(r == (opts.flags&protoiface.MarshalDeterministic == 0))
+	return
+}
+
+// ---------------------------------------------------------------- required-field accounting (C10)
+
+// The fast path decides "all required fields seen" by comparing the population count of a 64-bit
+// mask with numRequiredFields. That is exact when every required field owns a distinct bit, and
+// safe (never "initialized" for a partial message) when a required field that could not get a bit
+// pushes the count above 64, which no population count can reach. newFieldValidationInfo
+// maintains exactly that: a required field either gets the bit numbered by the count before it,
+// or leaves the count above 64.
+//
+// @ props C10
+// @ mode bv
+// @ nopanic
+// @ pure protoreflect.FieldDescriptor.Cardinality
+func contract_newFieldValidationInfo(mi *MessageInfo, si structInfo, fd protoreflect.FieldDescriptor, ft reflect.Type) (vi validationInfo) {
+	requires(mi != nil)
+	modifiesAll()
+	ensures(imp(fd.Cardinality() == protoreflect.Required, vi.requiredBit != 0 || mi.numRequiredFields > 64))
+	ensures(imp(fd.Cardinality() == protoreflect.Required && mi.numRequiredFields <= 64,
+		1 <= mi.numRequiredFields && vi.requiredBit == uint64(1)<<(mi.numRequiredFields-1)))
 	return
 }
